@@ -135,3 +135,43 @@ def gen_effects():
         "",
     ])
     return write_if_changed(os.path.join(GEN_DIR, "Effects.lean"), text), te, tt, impure
+
+
+def gen_eigs():
+    """constants and call structure of Solver.eigs / shapedna glue"""
+    from fractions import Fraction
+    from .sym import snap
+    tree = _parse("lapy/solver.py")
+    cls = [n for n in tree.body if isinstance(n, ast.ClassDef) and n.name == "Solver"][0]
+    fn = [n for n in cls.body if isinstance(n, ast.FunctionDef) and n.name == "eigs"][0]
+    sigma = None
+    splu_arg = eigsh_call = opinv = None
+    for node in ast.walk(fn):
+        if isinstance(node, ast.Assign) and len(node.targets) == 1 and isinstance(node.targets[0], ast.Name) and node.targets[0].id == "sigma":
+            try:
+                sigma = snap(float(ast.literal_eval(node.value)))
+            except Exception:  # noqa: BLE001
+                sigma = None
+        if isinstance(node, ast.Call) and isinstance(node.func, ast.Name):
+            if node.func.id == "splu" and node.args:
+                splu_arg = ast.unparse(node.args[0])
+            if node.func.id == "eigsh":
+                eigsh_call = ast.unparse(node)
+        if isinstance(node, ast.Assign) and isinstance(node.value, ast.Call) and isinstance(node.value.func, ast.Name) \
+                and node.value.func.id == "LinearOperator" and "lu.solve" in ast.unparse(node.value):
+            opinv = ast.unparse(node.value)
+    fr = Fraction(sigma) if sigma is not None else Fraction(0)
+    esc = lambda s: (s or "MISSING").replace("\\", "\\\\").replace('"', '\\"')  # noqa: E731
+    text = "\n".join([
+        "/-  GENERATED by vcheck/astx.py from lapy/solver.py::Solver.eigs -- do not edit. -/",
+        "namespace LapyVerif.Gen.Eigs",
+        "def sigmaFound : Bool := %s" % lean_bool(sigma is not None),
+        "def sigmaNum : Int := %d" % fr.numerator,
+        "def sigmaDen : Nat := %d" % fr.denominator,
+        'def factorised : String := "%s"' % esc(splu_arg),
+        'def eigshCall : String := "%s"' % esc(eigsh_call),
+        'def opInv : String := "%s"' % esc(opinv),
+        "end LapyVerif.Gen.Eigs",
+        "",
+    ])
+    return write_if_changed(os.path.join(GEN_DIR, "Eigs.lean"), text), fr
